@@ -1,9 +1,9 @@
 #!/bin/bash
 # tools/benign_run.sh [ID...]  - applies every benign/*.diff (behaviour-preserving refactorings, repaired known defects) to a scratch
-# copy of /repo and runs the named checks (default: all 20): every one must exit 0.
+# (BENIGN="benign/a.diff benign/b.diff" restricts the patches) copy of /repo and runs the named checks (default: all 20): every one must exit 0.
 cd "$(dirname "$0")/.."
 ids="$@"; [ -z "$ids" ] && ids=$(for i in $(seq -w 1 20); do echo C$i; done)
-for b in benign/*.diff; do
+for b in ${BENIGN:-benign/*.diff}; do
   W=/dev/shm/benign_$$; rm -rf $W; mkdir $W; rsync -a --exclude .git /repo/ $W/
   (cd $W && patch -p1 -s < "$OLDPWD/$b") || { echo "PATCH-FAILED $b"; rm -rf $W; continue; }
   bad=0
